@@ -339,6 +339,13 @@ def obs_of(thunk, conv, info, what):
         return 'OValueError'
     except sc.Unconvertible:
         raise
+    except TypeError as e:
+        if 'Cannot convert input to Expr' not in str(e):
+            info['errors'].append(f'{what}:TypeError')
+            return 'OOther'
+        # sympy's piecewise_fold produced an ITE condition that symengine cannot represent: engine limitation
+        info['errors'].append(f'{what}:engine-TypeError')
+        return 'OEngine'
     except RuntimeError as e:
         # symengine refuses to evaluate (division by zero / "Invalid comparison of complex zoo" when an eta
         # fixed to zero is substituted, also in a branch that is never taken): counted, inconclusive
@@ -513,7 +520,8 @@ def run_specs(ctx, specs, label, quiet=False, mods=None, verdict='verdict'):
     for spec in specs:
         try:
             term, info = observe(spec, prng, mods)
-        except (sc.Unconvertible, InvalidSpec, EngineRefusal, ZeroDivisionError, sympy.SympifyError, TypeError) as e:
+        except (sc.Unconvertible, InvalidSpec, EngineRefusal, ZeroDivisionError, sympy.SympifyError, TypeError,
+                RecursionError) as e:      # RecursionError: sympy's Piecewise evaluation inside the exporter
             skipped[type(e).__name__] = skipped.get(type(e).__name__, 0) + 1
             continue
         terms.append(term)
@@ -715,6 +723,7 @@ def observe_pair(hspec, prng, cdir=None):
     info = {'applied': applied, 'error': None, 'n': len(m.statements), 'reparse': None}
     info['fixed_variance'] = any(p.fix and p.init != 0 and p.name in m.random_variables.parameter_names
                                  for p in m.parameters)
+    info['already_mu'] = any(hasattr(st, 'symbol') and re.fullmatch(r'mu_\d+', str(st.symbol)) for st in m.statements)
     # NONMEM scaling factor defined as a pure alias (S1 = VC): cleanup_model inlines it away
     info['scaling_alias'] = any(hasattr(st, 'symbol') and re.fullmatch(r'S\d+', str(st.symbol))
                                 and st.expression.is_symbol() for st in m.statements)
@@ -794,6 +803,7 @@ def corpus_oracle(ctx, n):
           + hs)
     hs.append({'start': 'pheno', 'history': ['fix_first_sigma'], 'refactoring': 'cleanup_model'})
     hs.append({'start': 'pheno', 'history': ['add_peripheral_compartment'], 'refactoring': 'cleanup_model'})
+    hs.append({'start': 'pheno', 'history': ['mu_reference_model'], 'refactoring': 'mu_reference_model'})
     terms, kept, infos = [], [], []
     stats = {'refactoring_raised': {}, 'unconvertible': 0, 'compared': 0, 'inconclusive': 0, 'dv_points_compared': 0,
              'per_refactoring': {}, 'text_changed': 0, 'known': 0, 'reparse_compared': 0, 'reparse_skipped': {},
@@ -846,6 +856,12 @@ def corpus_oracle(ctx, n):
             stats['inconclusive'] += 1
         else:
             stats['compared'] += 1
+        if (31 in tags and h['refactoring'] == 'mu_reference_model' and info.get('already_mu')
+                and ctx.open_finding('C07-MU-REFERENCE-NOT-IDEMPOTENT')):
+            stats['known'] += 1
+            kh = ctx.coverage.setdefault('known_hits', {})
+            kh['C07-MU-REFERENCE-NOT-IDEMPOTENT'] = kh.get('C07-MU-REFERENCE-NOT-IDEMPOTENT', 0) + 1
+            continue
         for t in (31, 32):
             if t in tags:
                 ctx.violation(OTAGS[t] + f" ({h['refactoring']} after {info['applied']} on {h['start']})",
